@@ -1,6 +1,7 @@
 import MitmVerif.Model.C07
 import MitmVerif.Model.C07_Reader
 import MitmVerif.Model.C07_Exchange
+import MitmVerif.Model.C01
 import Driver.Proto
 open MitmVerif Driver
 
@@ -126,6 +127,17 @@ def stepLine (line : String) : String :=
     | some b => match parseSize b with
       | some n => "ok " ++ showInt n
       | none => "err"
+    | none => "bad-op"
+  | ["te", h] =>
+    -- reader's classification of a Transfer-Encoding value (C01.parseTE) and the writers' chunk-framing test
+    match hexOr h with
+    | some v =>
+      let reads := match MitmVerif.C01.parseTE v with
+        | some (.chunkedFinal, _) => "chunked"
+        | some (.other, _) => "other"
+        | none => "err"
+      let writes := MitmVerif.C01.containsSub MitmVerif.C01.sChunked (asciiLower v)
+      s!"{reads} {if writes then 1 else 0}"
     | none => "bad-op"
   | ["flow", dir, lim, thr, store, pol, exp, endS, chunks] => flow dir lim thr store pol exp endS chunks
   | ["wire", dir, lim, thr, store, pol, fr, segs, close] => wire dir lim thr store pol fr segs close
